@@ -2,15 +2,21 @@
 from . import common as C, chan
 
 MODULE = "AcqVerif.Props.C02"
-DRIVERS = ["acq_chan"]
+DRIVERS = ["acq_chan", "acq_conc", "AcqVerif.Props.ChanThreads"]
 THEOREMS = ["AcqVerif.C02.%s" % t for t in (
     "write_region_in_buffer", "write_avoids_readers", "read_region_committed", "pending_write_disjoint",
     "mapped_reader_frame", "mapped_region_stable")] + ["AcqVerif.Channel.Inv.run"]
 
 def run(ctx):
-    chan.prove_with_lock_discipline(ctx, MODULE, THEOREMS, DRIVERS)
+    chan.prove_with_lock_discipline(ctx, MODULE, THEOREMS, DRIVERS, threads=True)
     ctx.assumptions += chan.ASSUMPTIONS
     chan.explore(ctx, chan.C02_ORACLES)
+    # a writer that has slept places its region against the readers as they are *after* the sleep (AcqVerif.ChanThreads; tie: detsched)
+    from . import c03
+    keep = dict(ctx.cov)
+    c03.conc_part(ctx, ("write-overlaps-unconsumed",), 120 if ctx.tier == "thorough" else 24, 600 if ctx.tier == "thorough" else 150)
+    keep["concurrent_part"] = ctx.cov.get("concurrent_part")
+    ctx.cov.update(keep)
     # the same claim where a zero-copy consumer really sits: the monitoring client of the running pipeline holds a region
     # (also across a refused second acquire_map_read) while the source keeps writing; the harness checks that the held bytes
     # do not change, and the co-simulation with M1 that the refused call leaves every channel cursor alone
@@ -28,4 +34,12 @@ def run(ctx):
 
 
 def replay(ctx, path):
+    import json
+    r = json.load(open(path)).get("replay", {})
+    if "scenario" in r:
+        from . import c03
+        return c03.replay(ctx, path)
+    if "harness_input" in r:
+        from . import rtx
+        return rtx.replay(ctx, path)
     return chan.replay(ctx, path, chan.C02_ORACLES)
